@@ -747,6 +747,7 @@ func (x *Exec) verify() {
 		edges = append(edges, edgeState{cond: r.pc, st: r.st})
 		pcs = append(pcs, r.pc)
 	}
+	x.vc.curBlock = -1
 	final := x.mergeStates(edges)
 	exitPC := x.vc.define("pc_exit", or(pcs...))
 	var results []Term
@@ -788,7 +789,7 @@ func (x *Exec) verify() {
 		for k, cx := range ctxs {
 			penv := x.newEnv(cx.st, x.entry)
 			goal := x.evalClause(penv, c)
-			x.vc.oblige(&Obligation{Name: fmt.Sprintf("%s@path%d", c.Name, k+1), Kind: "ensures", Tags: c.Tags, Goal: goal, PC: cx.cond, Src: c.Src, Pos: fmt.Sprintf("%s:%d", shortPath(c.File), c.Line), Observe: x.observations()})
+			x.vc.oblige(&Obligation{Name: fmt.Sprintf("%s@path%d", c.Name, k+1), Kind: "ensures", Tags: c.Tags, Goal: goal, PC: cx.cond, Src: c.Src, Pos: fmt.Sprintf("%s:%d", shortPath(c.File), c.Line), Observe: x.observations(), Block: cx.blk, BlockSet: cx.hasBlk})
 		}
 	}
 	// frame
@@ -815,7 +816,7 @@ func trivialBlock(b *ssa.BasicBlock) bool {
 func (x *Exec) leafContexts(b *ssa.BasicBlock, pc Term, st *State, budget *int) []edgeState {
 	if !trivialBlock(b) || x.loops[b] != nil || b == x.fn.Blocks[0] {
 		*budget--
-		return []edgeState{{cond: pc, st: st}}
+		return []edgeState{{cond: pc, st: st, blk: b.Index, hasBlk: true}}
 	}
 	var out []edgeState
 	n := 0
@@ -833,7 +834,7 @@ func (x *Exec) leafContexts(b *ssa.BasicBlock, pc Term, st *State, budget *int) 
 			out = append(out, x.leafContexts(p, c, ps, budget)...)
 		} else {
 			*budget--
-			out = append(out, edgeState{cond: c, st: ps})
+			out = append(out, edgeState{cond: c, st: ps, blk: p.Index, hasBlk: true})
 		}
 		if *budget < 0 {
 			return out
@@ -841,7 +842,7 @@ func (x *Exec) leafContexts(b *ssa.BasicBlock, pc Term, st *State, budget *int) 
 	}
 	if n == 0 {
 		*budget--
-		return []edgeState{{cond: pc, st: st}}
+		return []edgeState{{cond: pc, st: st, blk: b.Index, hasBlk: true}}
 	}
 	return out
 }
